@@ -32,6 +32,11 @@ CHECKS = {
   text="Model checking by trace validation: every operator, reflected operator, unary op, check and selection on secret integers/booleans x three operand-kind combinations x the full value window -2^b-1..2^b+1 x bitlengths 2..6 (plus random expression programs, every node judged) is executed on the real code; TLC evaluates the reference value with PyRef and compares, and checks that calls inside the formalised documented domain do not raise.",
   note="Integer shadow values compared exactly; calls whose reference value does not fit TLC's 32-bit integers are skipped (counted). Known findings characterised in KnownDeviations.tla.",
   design="5/C05"),
+ "C06": dict(
+  technique="TLC trace validation by self-composition (TraceShape.tla, Inv_Shape): runs of one program on different inputs zipped call by call",
+  text="Model checking by trace validation: programs are grouped by their text with input values and the ignore_errors switch abstracted; all runs of a group (operand values over the window, valid/invalid under ignore_errors, guard and condition values 0/1, every secret index / exponent / shift count) are zipped against a reference run and TLC compares, per call, the kinds and order of new variables, every constraint with coefficients, and the result wire expressions.",
+  note="Bounded to the generated program families (~20k runs quick) in small prime fields; canonical forms come from the independent recorder LC class.",
+  design="5/C06"),
 }
 
 NOT_YET = "check not built yet in this round (planned, see DESIGN.md section 5)"
